@@ -7,7 +7,19 @@
 
    The soundness proof of part 2 is a bisimulation-up-to argument by induction on the
    REFERENCE DEPTH of the [M]-derivation ([Mh h]: at most [h] nested rule unfoldings), with an
-   inner induction on the fuel of [simb]. *)
+   inner induction on the fuel of [simb]: an assumed pair (a,b) is used on a derivation of
+   [ERef a] of depth h+1 through the induction hypothesis at depth h for the two definitions.
+
+   How the checker is organised (all of it is only relevant to completeness, not soundness):
+   - [norm] is a DEEP normalisation (singleton groups, nested concatenations / alternations,
+     1*1 repetitions); it is applied to the two definitions of a pair and to every definition
+     that is unfolded, so [simb_aux] only ever sees normal forms;
+   - [simb_aux cf fuel]: [fuel] decreases at EVERY recursive call (sub-expressions and
+     unfoldings), so it must exceed nesting depth + number of unfoldings on a path (a few dozen is
+     plenty); [cf] is the fuel handed to [charclass] (rule unfoldings only);
+   - cycles through rules must be cut by [pairs], otherwise the answer is [false];
+   - everything that runs is written with [if] / [allb] / [anyb]: [vm_compute] is call-by-value
+     and [&&], [||], [forallb], [existsb] do not short-circuit there. *)
 From Coq Require Import List NArith Arith Bool Lia.
 Import ListNotations.
 From ABNF Require Import Base Engine Spec Checks EngineSound EngineComplete.
@@ -819,10 +831,8 @@ Qed.
 Section Sim.
   Variables G1 G2 : grammar.
   Variable pairs : list (rid * rid).
-  Variable cf : nat.                       (* fuel for [charclass] *)
-
-  (* rule 1: both sides are character classes *)
-  Definition cc_try (e1 e2 : expr) : option bool :=
+  (* rule 1: both sides are character classes; cf = fuel for [charclass] *)
+  Definition cc_try (cf : nat) (e1 e2 : expr) : option bool :=
     match charclass G1 cf e1 with
     | Some l1 =>
       match charclass G2 cf e2 with Some l2 => Some (cc_eqb l1 l2) | None => None end
@@ -834,32 +844,32 @@ Section Sim.
 
   (* expressions are kept normalised ([norm]): the definitions are normalised when a
      reference is unfolded, and sub-expressions of a normal form are normal *)
-  Fixpoint simb_aux (fuel : nat) (e1 e2 : expr) {struct fuel} : bool :=
+  Fixpoint simb_aux (cf fuel : nat) (e1 e2 : expr) {struct fuel} : bool :=
     match fuel with
     | 0 => false
     | S f =>
-      match cc_try e1 e2 with
+      match cc_try cf e1 e2 with
       | Some b => b
       | None =>
         match e1, e2 with
         | ERef a, ERef b =>
           if in_pairs a b then true
           else match def G1 a, def G2 b with
-               | Some d1, Some d2 => simb_aux f (norm d1) (norm d2)
+               | Some d1, Some d2 => simb_aux cf f (norm d1) (norm d2)
                | _, _ => false
                end
         | ERef a, _ =>
-          match def G1 a with Some d1 => simb_aux f (norm d1) e2 | None => false end
+          match def G1 a with Some d1 => simb_aux cf f (norm d1) e2 | None => false end
         | _, ERef b =>
-          match def G2 b with Some d2 => simb_aux f e1 (norm d2) | None => false end
+          match def G2 b with Some d2 => simb_aux cf f e1 (norm d2) | None => false end
         | ELit cs1 v1, ELit cs2 v2 => lit_eqb cs1 v1 cs2 v2
-        | ECat es1, ECat es2 => forall2b (simb_aux f) es1 es2
+        | ECat es1, ECat es2 => forall2b (simb_aux cf f) es1 es2
         | EAlt _ es1, EAlt _ es2 =>
-          if allb (fun x => anyb (fun y => simb_aux f x y) es2) es1
-          then allb (fun y => anyb (fun x => simb_aux f x y) es1) es2
+          if allb (fun x => anyb (fun y => simb_aux cf f x y) es2) es1
+          then allb (fun y => anyb (fun x => simb_aux cf f x y) es1) es2
           else false
         | ERep _ mn1 mx1 x, ERep _ mn2 mx2 y =>
-          if Nat.eqb mn1 mn2 then (if optnat_eqb mx1 mx2 then simb_aux f x y else false)
+          if Nat.eqb mn1 mn2 then (if optnat_eqb mx1 mx2 then simb_aux cf f x y else false)
           else false
         | EProse, EProse => true
         | _, _ => false
@@ -867,9 +877,9 @@ Section Sim.
       end
     end.
 
-  Definition pair_ok (fuel : nat) (p : rid * rid) : bool :=
+  Definition pair_ok (cf fuel : nat) (p : rid * rid) : bool :=
     match def G1 (fst p), def G2 (snd p) with
-    | Some d1, Some d2 => simb_aux fuel (norm d1) (norm d2)
+    | Some d1, Some d2 => simb_aux cf fuel (norm d1) (norm d2)
     | _, _ => false
     end.
 
@@ -891,7 +901,7 @@ Section Sim.
     intros H1 H2 H. split; eapply Half_ref_both; eauto; intros h' Hlt; apply (H h' Hlt).
   Qed.
 
-  Lemma cc_try_inv h e1 e2 : cc_try e1 e2 = Some true -> Inv h e1 e2.
+  Lemma cc_try_inv cf h e1 e2 : cc_try cf e1 e2 = Some true -> Inv h e1 e2.
   Proof.
     unfold cc_try. destruct (charclass G1 cf e1) as [l1|] eqn:E1; [|discriminate].
     destruct (charclass G2 cf e2) as [l2|] eqn:E2; [|discriminate].
@@ -917,17 +927,17 @@ Section Sim.
 
   (* every assumed pair has been checked, with some fuel *)
   Hypothesis Hpairs : forall a b, In (a, b) pairs ->
-    exists d1 d2 F, def G1 a = Some d1 /\ def G2 b = Some d2 /\
-                    simb_aux F (norm d1) (norm d2) = true.
+    exists d1 d2 c F, def G1 a = Some d1 /\ def G2 b = Some d2 /\
+                      simb_aux c F (norm d1) (norm d2) = true.
 
   (* outer induction: reference depth of the derivation; inner induction: fuel *)
-  Lemma simb_inv : forall h f e1 e2, simb_aux f e1 e2 = true -> Inv h e1 e2.
+  Lemma simb_inv : forall h cf f e1 e2, simb_aux cf f e1 e2 = true -> Inv h e1 e2.
   Proof.
-    induction h as [h IHh] using lt_wf_ind.
+    induction h as [h IHh] using lt_wf_ind. intros cf.
     induction f as [|f IHf]; intros e1 e2 H; [discriminate|].
     cbn [simb_aux] in H.
-    destruct (cc_try e1 e2) as [b|] eqn:Ecc.
-    { subst b. apply cc_try_inv. exact Ecc. }
+    destruct (cc_try cf e1 e2) as [b|] eqn:Ecc.
+    { subst b. apply (cc_try_inv cf). exact Ecc. }
     clear Ecc.
     destruct e1 as [cs1 v1|lo1 hi1|fm1 es1|es1|id1 mn1 mx1 x1| |a];
       destruct e2 as [cs2 v2|lo2 hi2|fm2 es2|es2|id2 mn2 mx2 x2| |b]; try discriminate H;
@@ -965,8 +975,8 @@ Section Sim.
       split; apply Half_prose.
     - (* two references *)
       destruct (in_pairs a b) eqn:Ep.
-      + apply in_pairs_In in Ep. destruct (Hpairs a b Ep) as [d1 [d2 [F [H1 [H2 HS]]]]].
-        apply (Inv_ref_both _ _ _ _ _ H1 H2). intros h' Hlt. exact (IHh h' Hlt F _ _ HS).
+      + apply in_pairs_In in Ep. destruct (Hpairs a b Ep) as [d1 [d2 [c [F [H1 [H2 HS]]]]]].
+        apply (Inv_ref_both _ _ _ _ _ H1 H2). intros h' Hlt. exact (IHh h' Hlt c F _ _ HS).
       + destruct (def G1 a) as [d1|] eqn:H1; [|discriminate H].
         destruct (def G2 b) as [d2|] eqn:H2; [|discriminate H].
         apply (Inv_ref_both _ _ _ _ _ H1 H2). intros h' Hlt.
@@ -997,12 +1007,12 @@ Qed.
 
 Lemma lang_eq_pairs G1 G2 pairs fuel : lang_eq_check G1 G2 pairs fuel = true ->
   forall a b, In (a, b) pairs ->
-    exists d1 d2 F, def G1 a = Some d1 /\ def G2 b = Some d2 /\
-                    simb_aux G1 G2 pairs fuel F (norm d1) (norm d2) = true.
+    exists d1 d2 c F, def G1 a = Some d1 /\ def G2 b = Some d2 /\
+                      simb_aux G1 G2 pairs c F (norm d1) (norm d2) = true.
 Proof.
   intros Hck a b Hin.
   destruct (proj1 (lang_eq_check_spec _ _ _ _) Hck a b Hin) as [d1 [d2 [H1 [H2 HS]]]].
-  exists d1, d2, fuel. auto.
+  exists d1, d2, fuel, fuel. auto.
 Qed.
 
 Theorem lang_eq_sound G1 G2 pairs fuel : lang_eq_check G1 G2 pairs fuel = true ->
@@ -1011,10 +1021,10 @@ Proof.
   intros Hck.
   pose proof (lang_eq_pairs _ _ _ _ Hck) as Hpairs.
   intros a b Hin s i j.
-  destruct (Hpairs a b Hin) as [d1 [d2 [F [H1 [H2 HS]]]]].
+  destruct (Hpairs a b Hin) as [d1 [d2 [c [F [H1 [H2 HS]]]]]].
   assert (HI : forall h, Inv G1 G2 h (ERef a) (ERef b)).
   { intros h. apply (Inv_ref_both _ _ _ _ _ _ _ H1 H2). intros h' _.
-    exact (simb_inv G1 G2 pairs fuel Hpairs h' F _ _ HS). }
+    exact (simb_inv G1 G2 pairs Hpairs h' c F _ _ HS). }
   split; intros HM; apply M_iff_Mh in HM; destruct HM as [h HM].
   - exact (proj1 (HI h) s i j HM).
   - exact (proj2 (HI h) s i j HM).
@@ -1028,8 +1038,8 @@ Proof.
   intros Hck f e1 e2 HS s i j. pose proof (lang_eq_pairs _ _ _ _ Hck) as Hpairs. unfold simb in HS.
   rewrite <- (norm_M G1 s e1 i j), <- (norm_M G2 s e2 i j).
   split; intros HM; apply M_iff_Mh in HM; destruct HM as [h HM].
-  - exact (proj1 (simb_inv G1 G2 pairs fuel f Hpairs h f _ _ HS) s i j HM).
-  - exact (proj2 (simb_inv G1 G2 pairs fuel f Hpairs h f _ _ HS) s i j HM).
+  - exact (proj1 (simb_inv G1 G2 pairs Hpairs h f f _ _ HS) s i j HM).
+  - exact (proj2 (simb_inv G1 G2 pairs Hpairs h f f _ _ HS) s i j HM).
 Qed.
 
 (* ================================================================================== *)
@@ -1098,3 +1108,4 @@ End LangEqExamples.
 Print Assumptions charclass_sound.
 Print Assumptions cc_eqb_sound.
 Print Assumptions lang_eq_sound.
+Print Assumptions simb_sound.
